@@ -611,6 +611,13 @@ def solver_ops(T, tier, fmts):
                 lambda d: _quiet(lambda: qutip.mesolve(d["H"], d["rho"], d["tlist"], d["c_ops"], options=d["options"], progress_bar=False).states), targets=(), detail={"fmt": fmt})
         T.check(f"smesolve-deprecated-keyword:{fmt}", {"H": H0, "rho": qutip.ket2dm(psi), "tlist": np.linspace(0, 0.3, 4), "sc_ops": [c[0]], "options": {"store_states": True, "dt": 0.05}},
                 lambda d: _quiet(lambda: qutip.smesolve(d["H"], d["rho"], d["tlist"], sc_ops=d["sc_ops"], options=d["options"], ntraj=1, seeds=3, store_measurement=True).states), targets=(), detail={"fmt": fmt})
+        # environments built from a list of exponents and coefficient lists at once keep the caller's list as it is
+        if fmt == fmts[0]:
+            from qutip.core.environment import ExponentialBosonicEnvironment, ExponentialFermionicEnvironment, CFExponent
+            T.check("environment-exponent-list:bosonic", {"exponents": [CFExponent("R", 0.1, 1.0)], "ck": [0.2], "vk": [2.0]},
+                    lambda d: len(ExponentialBosonicEnvironment(d["ck"], d["vk"], [], [], exponents=d["exponents"], combine=False).exponents), targets=(), detail={})
+            T.check("environment-exponent-list:fermionic", {"exponents": [CFExponent("+", 0.1, 1.0), CFExponent("-", 0.1, 1.0)], "ck": [0.2], "vk": [2.0]},
+                    lambda d: len(ExponentialFermionicEnvironment(d["ck"], d["vk"], d["ck"], d["vk"], exponents=d["exponents"]).exponents), targets=(), detail={})
         # options that are dictionaries themselves: the solver adds its own entries to a copy (the MPI executor is not installed
         # here; the dictionary is handled before the map starts)
         T.check(f"mcsolve-mpi-options:{fmt}", {"H": H0, "psi": psi, "tlist": np.linspace(0, 0.3, 3), "c_ops": list(c), "options": {"map": "mpi", "mpi_options": {"use_dill": False}, "progress_bar": ""}},
